@@ -880,6 +880,13 @@ func (ex *Exec) toInterface(v Value, t types.Type, st *State) Value {
 	} else {
 		id = freshVar("iface", sortRef)
 		st.assume(mkCmp("lt", mkInt(sortRef, 0), id))
+		// a boxed non-pointer value is immutable: its leaves are functions of the interface value's identity, so that a
+		// type assertion back to the same type yields the value that was boxed
+		if v.T != nil && len(v.L) > 0 && len(v.L) <= 32 {
+			for p, l := range v.L {
+				st.assume(mkEq(mkApp("unboxleaf!"+typeKey(v.T)+"!"+p, l.Sort, id), l))
+			}
+		}
 	}
 	st.assume(mkEq(mkApp("dyntype", sortMath, id), mkInt(sortMath, ex.vc.typeID(v.T))))
 	out := scalarV(t, id)
@@ -907,6 +914,11 @@ func (ex *Exec) evalTypeAssert(e *ast.TypeAssertExpr, st *State, commaOk bool) [
 		st.assumeValid(out)
 	} else {
 		out = freshValue("unboxed", tt)
+		if len(out.L) > 0 && len(out.L) <= 32 {
+			for p, l := range out.L {
+				out.L[p] = mkApp("unboxleaf!"+typeKey(tt)+"!"+p, l.Sort, x.scalar())
+			}
+		}
 		st.assumeValid(out)
 	}
 	if commaOk {
@@ -1210,8 +1222,10 @@ func (ex *Exec) applyNoError(call *ast.CallExpr, sig *types.Signature, res []Val
 		text := strings.ReplaceAll(nodeText(ex.vc.fset, call.Fun), " ", "")
 		for _, nn := range f0.fn.Con.NonNil {
 			if nn == text && res[0].T != nil {
-				if _, ok := res[0].T.Underlying().(*types.Pointer); ok {
-					ex.note("ASSUMED: " + text + " returns a non-nil pointer in " + f0.fn.Short + " (nonnil clause)")
+				_, isPtr := res[0].T.Underlying().(*types.Pointer)
+				_, isIface := res[0].T.Underlying().(*types.Interface)
+				if isPtr || isIface {
+					ex.note("ASSUMED: " + text + " returns a non-nil value in " + f0.fn.Short + " (nonnil clause)")
 					st.assume(mkNot(mkEq(res[0].scalar(), mkInt(sortRef, 0))))
 				}
 			}
